@@ -149,7 +149,14 @@ func runAll(h Handler, j int, inproc bool) {
 	w.Flush()
 }
 
-func isolated(h Handler, self string, c []byte, to time.Duration) []byte {
+// retryMu serialises the re-runs of cases whose process died or timed out: a machine under heavy load makes a
+// healthy case miss its deadline, and such a case must not be reported as a crash or a hang of the code under
+// test. A case is abnormal only if it fails three times, the last two alone and with four times the deadline.
+// Once five cases have stayed abnormal after their re-runs the point is made and later ones are not re-run.
+var retryMu sync.Mutex
+var confirmedAbnormal int
+
+func isolatedOnce(self string, c []byte, to time.Duration) (out []byte, timedOut bool, stderr string, err error) {
 	ctx, cancel := context.WithTimeout(context.Background(), to)
 	defer cancel()
 	cmd := exec.CommandContext(ctx, self, "one")
@@ -158,10 +165,35 @@ func isolated(h Handler, self string, c []byte, to time.Duration) []byte {
 	cmd.Stdout = &so
 	cmd.Stderr = &se
 	cmd.Env = append(os.Environ(), "GOMAXPROCS=2")
-	err := cmd.Run()
-	timedOut := ctx.Err() == context.DeadlineExceeded
-	if err == nil && !timedOut && json.Valid(bytes.TrimSpace(so.Bytes())) && len(bytes.TrimSpace(so.Bytes())) > 0 {
-		return so.Bytes()
+	err = cmd.Run()
+	timedOut = ctx.Err() == context.DeadlineExceeded
+	if err == nil && !timedOut && (!json.Valid(bytes.TrimSpace(so.Bytes())) || len(bytes.TrimSpace(so.Bytes())) == 0) {
+		err = fmt.Errorf("no record on stdout")
+	}
+	return so.Bytes(), timedOut, se.String(), err
+}
+
+func isolated(h Handler, self string, c []byte, to time.Duration) []byte {
+	out, timedOut, stderr, err := isolatedOnce(self, c, to)
+	if err == nil && !timedOut {
+		return out
+	}
+	retryMu.Lock()
+	for try := 0; try < 2 && (err != nil || timedOut) && confirmedAbnormal < 5; try++ {
+		fmt.Fprintf(os.Stderr, "case process failed (timeout=%v, %v); retry %d alone with deadline %v\n", timedOut, err, try+1, 4*to)
+		out, timedOut, stderr, err = isolatedOnce(self, c, 4*to)
+	}
+	if err != nil || timedOut {
+		confirmedAbnormal++
+	}
+	retryMu.Unlock()
+	if err == nil && !timedOut {
+		return out
+	}
+	var se bytes.Buffer
+	se.WriteString(stderr)
+	if timedOut {
+		se.WriteString("\n[deadline exceeded three times, last deadline " + (4 * to).String() + "]")
 	}
 	if h.Abnormal == nil {
 		fmt.Fprintf(os.Stderr, "case process failed (timeout=%v): %v\n%s\n", timedOut, err, tail(se.String(), 2000))
@@ -208,7 +240,18 @@ func Fresh(subcase interface{}) (json.RawMessage, error) {
 	cmd.Stdout = &so
 	cmd.Stderr = &se
 	if err := cmd.Run(); err != nil {
-		return nil, fmt.Errorf("fresh process: %v: %s", err, tail(se.String(), 500))
+		// once more, with a longer deadline: a loaded machine must not look like a crash of the code under test
+		ctx2, cancel2 := context.WithTimeout(context.Background(), 240*time.Second)
+		defer cancel2()
+		cmd = exec.CommandContext(ctx2, self, "one")
+		cmd.Stdin = bytes.NewReader(b)
+		so.Reset()
+		se.Reset()
+		cmd.Stdout = &so
+		cmd.Stderr = &se
+		if err := cmd.Run(); err != nil {
+			return nil, fmt.Errorf("fresh process: %v: %s", err, tail(se.String(), 500))
+		}
 	}
 	return json.RawMessage(bytes.TrimSpace(so.Bytes())), nil
 }
